@@ -88,6 +88,15 @@ int main(int argc, char **argv) {
   line("R max" + p + std::to_string(ygm::max(a, world)));
   line("R prefix_sum" + p + std::to_string(ygm::prefix_sum(a, world)));
   line("R prefix_sum_u64" + p + std::to_string(ygm::prefix_sum((uint64_t)(me + 1), world)));
+  {
+    // floating-point prefix sums: the exclusive prefix of rank 1 is exactly rank 0's input whatever the association order, also when
+    // rank 1's own input is huge; with inputs that are small integers every prefix is exact
+    double big = me == 1 ? 1e17 : 1.0;
+    line("R prefix_sum_dbl_big" + p + std::to_string((long long)std::llround(ygm::prefix_sum(big, world) * 4)) + (me <= 1 ? "" : " -"));
+    line("R prefix_sum_dbl" + p + std::to_string((long long)std::llround(ygm::prefix_sum((double)(me * 0.5 + 0.25), world) * 4)));
+    line("R prefix_sum_flt" + p + std::to_string((long long)std::llround(ygm::prefix_sum((float)(me + 1), world) * 4)));
+    line("R prefix_sum_i32" + p + std::to_string((long long)ygm::prefix_sum((int32_t)(me % 2 ? -(me + 1) : me + 1), world)));
+  }
   line("R logical_and" + p + std::to_string((int)ygm::logical_and(inp(seed, me, 7) > -900, world)));
   line("R logical_or" + p + std::to_string((int)ygm::logical_or(inp(seed, me, 8) > 900, world)));
   line("R logical_and_all" + p + std::to_string((int)ygm::logical_and(true, world)));
